@@ -156,6 +156,89 @@ def worker(args):
     return out
 
 
+def multi_worker(args):
+    """save / load of a multi-stage OCP (stages, clones, master variables, coupling)"""
+    mc, points, when = args
+    from ..common import setup_rockit_path, time_limit
+    rockit = setup_rockit_path()
+    import io, contextlib
+    out = {}
+    fd, path = tempfile.mkstemp(suffix=".rockit", dir=os.environ.get("TMPDIR", "/tmp"))
+    os.close(fd)
+    try:
+        with time_limit(240), contextlib.redirect_stdout(io.StringIO()), contextlib.redirect_stderr(io.StringIO()):
+            master, Bs, mv = c12.build_multi(mc, rockit)
+            cases = [c12.eff_case(mc, i) for i in range(len(Bs))]
+            if when != "fresh":
+                Bs[0].ocp.sample(Bs[0].ocp.t, grid="control")
+            if when == "solved":
+                try:
+                    master.solve_limited()
+                except RuntimeError as e_:
+                    if "Solver failed" not in str(e_) and "return_success" not in str(e_):
+                        raise
+            master.save(path)
+            o2 = rockit.Ocp.load(path)
+            Bs[0].ocp.sample(Bs[0].ocp.t, grid="control")
+            out["inputs"] = [engine.impl_inputs(B, c) for B, c in zip(Bs, cases)]
+            _, objs1, rows1 = c12.observe_multi(master, Bs, mv, cases, points)
+            stages2 = list(o2.iter_stages())
+            out["nstages"] = [len(Bs), len(stages2)]
+            out["sigs"] = [[accessor_signature(B.ocp) for B in Bs], [accessor_signature(st) for st in stages2]]
+            Bs2 = [rebuild(st, B) for st, B in zip(stages2, Bs)]
+            for B2 in Bs2:
+                B2.master = o2
+            mv2 = list(o2.variables[""])
+            Bs2[0].ocp.sample(Bs2[0].ocp.t, grid="control")
+            _, objs2, rows2 = c12.observe_multi(o2, Bs2, mv2, cases, points)
+            out["orig"] = {"objs": objs1, "rows": [(s_, list(map(float, hs))) for s_, key, hs in rows1]}
+            out["loaded"] = {"objs": objs2, "rows": [(s_, list(map(float, hs))) for s_, key, hs in rows2]}
+    except Exception as e:
+        out["error"] = "%s: %s" % (type(e).__name__, str(e)[:400])
+        out["trace"] = traceback.format_exc()[-1500:]
+    finally:
+        try:
+            os.remove(path)
+        except OSError:
+            pass
+    return out
+
+
+def run_multi(seed, n, jobs, name):
+    cps = c12.gen_cases(seed + 1800, n, c12.OPTS, 2)
+    items = [(mc, pts, ["fresh", "transcribed", "solved"][i % 3]) for i, (mc, pts) in enumerate(cps)]
+    with mp.get_context("fork").Pool(min(jobs, max(1, len(items)))) as pool:
+        rr = pool.map(multi_worker, items, chunksize=1)
+    mv = c12.model_multi(cps, [r.get("inputs") for r in rr], name)
+    dis, ok = [], 0
+    for i, ((mc, pts, when), r) in enumerate(zip(items, rr)):
+        d = []
+        if "error" in r:
+            if any(s_ in r["error"] for s_ in SKIP) or "constant middle" in r["error"]:
+                continue
+            d = [{"what": "save / load of a multi-stage OCP raised", "error": r["error"], "trace": r.get("trace")}]
+        else:
+            if r["nstages"][0] != r["nstages"][1]:
+                d = [{"what": "the loaded OCP has a different number of stages", "stages": r["nstages"]}]
+            elif r["sigs"][0] != r["sigs"][1]:
+                d = [{"what": "accessors / methods of the loaded stages differ from the original's", "original": r["sigs"][0], "loaded": r["sigs"][1]}]
+            elif not engine.pair_unjudgeable(r["orig"], r["loaded"]):
+                ua, ub = engine.match_rows_factor(r["orig"]["rows"], r["loaded"]["rows"])
+                objbad = [(x, y) for x, y in zip(r["orig"]["objs"], r["loaded"]["objs"]) if not engine.close(x, y, scale=abs(y))]
+                if ua or ub or objbad:
+                    d = [{"what": "NLP of the loaded multi-stage OCP differs from the original's", "rows_only_original": ua[:3],
+                          "rows_only_loaded": ub[:3], "objective": objbad[:2]}]
+                elif i in mv:
+                    dd = engine.compare_case({}, mv[i], r["loaded"])
+                    if dd:
+                        d = [{"what": "the loaded multi-stage OCP's NLP differs from the Rocq model", "detail": dd[:3]}]
+        if d:
+            dis.append({"property": PID, "what": d[:2], "case": {"multi": mc, "when": when}, "points": pts, "finding_key": None})
+        else:
+            ok += 1
+    return dis, ok, len(items)
+
+
 SKIP = ("You passed a constant", "never statisfied", "Constraint must contain decision variables", "MX symbol 'offset'")
 
 
@@ -262,14 +345,18 @@ def run(tier="quick", seed=0, jobs=16):
     n = 90 if tier == "quick" else 900
     items = corpus() + gen_items(seed, n)
     dis, nontriv, dist, skipped = run_items(items, PID, jobs)
-    return {"evaluations": len(items), "distinct_nontrivial": len(nontriv),
+    dm, okm, nm = run_multi(seed, 21 if tier == "quick" else 210, jobs, PID + "multi")
+    dis += dm
+    dist["multi-stage"] = nm
+    return {"evaluations": len(items) + nm, "distinct_nontrivial": len(nontriv) + okm,
             "rule": "random OCPs (MS|SS|DC degree 1..3, DAEs, scales, free/parametric horizon, parameters and variables of every grid kind, "
                     "path/point constraints with offsets and scales, objective terms, constant initial guesses, solver options) x save "
                     "{before transcription, after transcription, after solve_limited, after an edit (subject_to / add_objective / solver) of "
                     "the transcribed OCP}; set_value / set_initial updates made after the transcription and before saving.  Compared: accessors and method of original before/"
                     "after saving and of the loaded OCP; NLP rows, objective, parameter vector, start point, solver name/options loaded vs "
                     "original; original before vs after saving; loaded vs Rocq model rows/objective; original still solvable.  distinct by "
-                    "hash of (case, when, guesses)",
+                    "hash of (case, when, guesses).  Plus multi-stage OCPs (1-3 stages, clones, master variables, coupling): stages, accessors, "
+                    "NLP loaded vs original vs Rocq multi-stage model.",
             "samples": [{"when": items[-1][1], "case": items[-1][0]}], "disagreements": dis, "distribution": dist,
             "extra": {"skipped_degenerate": skipped}}
 
@@ -277,6 +364,10 @@ def run(tier="quick", seed=0, jobs=16):
 def replay(path):
     d = json.load(open(path))
     c = d["case"]
+    if "multi" in c:
+        r = multi_worker((c["multi"], d["points"], c["when"]))
+        print(json.dumps({k: v for k, v in r.items() if k in ("error", "trace", "nstages")}, indent=1)[:3000])
+        return 1 if "error" in r else 0
     dis, _, _, _ = run_items([(c["case"], c["when"], c["calls"], d["points"], c.get("edit"), c.get("late"))], PID + "r", 1)
     print(json.dumps(dis[:1], indent=1, default=str)[:4000] if dis else "replay: agrees")
     return 1 if dis else 0
